@@ -42,6 +42,8 @@ func checkC11(c *Ctx) {
 	c11model(c, nil)
 	c11predicates(c, p)
 	c.exhaust = true
+	premiseBounds(c, "C11.R7", "an object is stored under the box its Bounds() returns, and found again by it")
+	c.Floor("C11.R7", 16)
 	c.Floor("C11.R1", 2)
 	c.Floor("C11.R2", 1)
 	c.Floor("C11.R3", 1)
